@@ -218,6 +218,19 @@ func (i *MessagingMiddleware) interceptDecryptionKeys(
 		return nil, errors.Wrapf(err, "failed to get current decryption trigger for eon %d", originalMsg.Eon)
 	}
 
+	// The stored slot decryption signatures cover the identities of the current trigger. A keys
+	// message for any other list of identities (e.g. one aggregated from a share message that
+	// belongs to an older or differing trigger) would be invalid with them attached, so we drop it.
+	identitiesHash := computeIdentitiesHashFromKeys(originalMsg.Keys)
+	if !bytes.Equal(identitiesHash, trigger.IdentitiesHash) {
+		log.Warn().
+			Uint64("eon", originalMsg.Eon).
+			Hex("expectedIdentitiesHash", trigger.IdentitiesHash).
+			Hex("actualIdentitiesHash", identitiesHash).
+			Msg("intercepted decryption keys message with unexpected identities hash")
+		return nil, nil
+	}
+
 	keyperSet, err := obsKeyperDB.GetKeyperSetByKeyperConfigIndex(ctx, int64(originalMsg.Eon))
 	if err != nil {
 		return nil, errors.Wrapf(err, "failed to get keyper set from database for eon %d", originalMsg.Eon)
